@@ -169,8 +169,21 @@ class Genuine:
         s = self.s
         if s.get("legacy"):
             return attest.legacy_signer_message(s["version"], self.pkhash())
-        return attest.powhsm_message(s["version"], b"sgx" if s["platform"] == "sgx" else b"led",
-                                     ud, self.pkhash(), s["best"], s["tx"], s["ts"])
+        plat3 = b"sgx" if s["platform"] == "sgx" else b"led"
+        shape = s.get("grind_custom")
+        if shape and s["platform"] == "sgx":
+            # the device's clock is where it has to be for the message digest to have the
+            # asked-for shape (a digest ending in a zero byte: one message in 256)
+            import hashlib
+            for k in range(2 ** 20):
+                ts = (s["ts"] + k) % 2 ** 64
+                d = hashlib.sha256(attest.powhsm_message(
+                    s["version"], plat3, ud, self.pkhash(), s["best"], s["tx"], ts)).digest()
+                if (shape == "ends-00" and d[-1] == 0) or (shape == "starts-00" and d[0] == 0):
+                    s["ts"] = ts
+                    break
+        return attest.powhsm_message(s["version"], plat3, ud, self.pkhash(), s["best"], s["tx"],
+                                     s["ts"])
 
     def h_signer_att(self, w, d):
         s = self.s
@@ -210,7 +223,8 @@ class Genuine:
     def build_envelope(self, custom):
         s = self.s
         spec = {"root": s["sgx_root"], "leaf": s["leaf"], "att": s["att"], "inter": [s["inter"]],
-                "auth": s["auth"], "custom": self._alt("custom-in-quote", custom),
+                "auth": s["auth"], "grind_auth": s.get("grind_auth"),
+                "custom": self._alt("custom-in-quote", custom),
                 "seed": s["tx"]}
         if s.get("cert_windows"):
             spec["windows"] = dict(s["cert_windows"])
